@@ -752,7 +752,10 @@ def absurd_table_probe(ctx):
 
 def run(ctx):
     C.seam_check(ctx["report"], ctx["rundir"], "C16", wrappers=[],
-                 pairs=[("ln(10000000!/9999998!)", "ln(10000000*9999999)"), ("log(C(12000, 2), 3)", "log(71994000, 3)"), ("x = 100000000!/99999999!; ln(x)", "ln(100000000)"),
+                 pairs=[("abs(5!/(-2*3!))", "10"), ("abs(1/(-2*3!))", "1/12"), ("sqrt(abs(4!/(-1*3!)))", "2"), ("abs(7!/(-1*5!)) m", "42 m"), ("abs(-5!)", "120"), ("abs(5!/-3)", "40"),
+                        ("abs(C(5,2)*-3)", "30"), ("abs(3!/(-1*4!))", "1/4"), ("floor(abs(5!/(-7*2!)))", "8"), ("sign(5!/(-2*3!))" if False else "abs(-2*5!)", "240"),
+                        ("x = [2, 3]^1000.5; (-8)^(1/3)" if False else "abs(0 - 6!/(-1*5!))", "6"),
+                        ("ln(10000000!/9999998!)", "ln(10000000*9999999)"), ("log(C(12000, 2), 3)", "log(71994000, 3)"), ("x = 100000000!/99999999!; ln(x)", "ln(100000000)"),
                         ("log10(20000!/19999!)", "log10(20000)"), ("log2(C(12000, 1))", "log2(12000)"), ("sqrt(20000!/19998!)", "sqrt(20000*19999)"),
                         ("sin(5e-10 rad) == sin(5e-10)", "1"), ("sin(2e-10 rad + 2e-10 rad) == sin(4e-10)", "1")])
     C.config_matrix(ctx["report"], ctx["rundir"], "C16", ["sin(3.14159265)", "cos(1.57079633)", "sin(180.0000003 deg)", "tan(0.5)", "log10(1000.0000005)", "ln(2.718281828)", "log2(1024.0000005)", "log(125.00000006, 5)", "sqrt(2*10^16)", "ln(10000000!/9999998!)", "log(C(100000, 2), 3)", "sin(5e-10 rad)", "2^0.5", "floor(7/2)", "round(5/2)", "int(-7/2)", "sqrt(-1)", "log(8, 1)"])
